@@ -52,11 +52,20 @@ def events_equal(a, b):
                     und = True
                     continue
                 if p != q:
+                    if NUMFMT_INSENSITIVE and {p[0], q[0]} == {"s", "raw"}:
+                        try:
+                            if abs(float(p[1].strip().rstrip(".") or "x") - float(q[1].strip().rstrip(".") or "y")) < 1e-9:
+                                continue
+                        except (ValueError, AttributeError):
+                            pass
                     return False, False
         else:
             if x != y:
                 return False, False
     return True, und
+
+
+NUMFMT_INSENSITIVE = False  # C01 compares values, not BASIC09's number format (set by the check)
 
 
 class Verdict:
